@@ -98,7 +98,7 @@ def gen_extension(S, rnd):
             ext.append(e)
     # scalar extensions: several extension nodes for one scalar, some giving the @specifiedBy url, some only a custom directive
     scalar_exts = []
-    plain_scalars = [t for t in S["types"] if t["kind"] == "SCALAR" and not t["specifiedBy"]]
+    plain_scalars = [t for t in S["types"] if t["kind"] == "SCALAR" and t["specifiedBy"] is None]
     if plain_scalars and rnd.random() < 0.6:
         sc = rnd.choice(plain_scalars)
         new_dirs.append({"name": "xs", "description": None, "locations": ["SCALAR"], "repeatable": True, "args": []})
